@@ -8,6 +8,9 @@ G  spec/css/CssTokensGen.tla     sequences of atoms x separator choices (pairs e
                                  transcribed) tokenises every generated text into exactly the expected items
 G  spec/css/CssClassStrings.tla  every class string up to a length for the IsIdent / IsURLUnquoted clause
 T  spec/css/CssTokensTrace.tla   judges the traces of harness/suites/csstok (one per execution)
+I  spec/css/CssLexImpl.tla       growth step (checks/c07impl.py): css/lex.go function by function over character classes; TLC: the model
+                                 refines proto/TokenStream.tla and returns the tokens of CssRef.tla on every class string up to a bound
+                                 (except at six flagged deviations); differential replay of every string on css.Lexer (MODEL-DRIFT)
 """
 import collections
 import concurrent.futures
@@ -300,6 +303,8 @@ def run(ck):
         "not generated (the standard or the statement leaves them open): NUL, backslash at end of input, escaped spellings of url, `--` directly "
         "after `-`, `@`, a number or an identifier, unterminated strings/comments/urls at end of input (except two BadURL shapes)",
     ]
+    import c07impl                  # growth step: the implementation-shaped model (its own TLC runs, replay, MODEL-DRIFT evidence)
+    c07impl.run(ck, thorough)
 
 
 def is_pipeline(ck, thorough):
